@@ -281,6 +281,7 @@ def _judge_cl(ck, ift, rng, kl, mir, dom, pos, x0, const, pe, nsamp, tag, ham):
 # JAX
 # =====================================================================================
 def case_re(ck, rng, force):
+    vh.jax_budget_guard(ck, forced=bool(force))
     jax, jnp, jft, rs = vh.get_jax(ck)
     rs.off()
     lhk = "poisson" if rng.integers(0, 4) == 0 else "gauss"
